@@ -212,6 +212,7 @@ func cmdCheck(args []string) int {
 		return 2
 	}
 	c.g = g
+	g.curProp = prop
 	// 2. generate
 	for _, sc := range pre.Shared {
 		for _, p := range sc.Props {
@@ -325,7 +326,8 @@ func (c *checkCtx) applyKnownFindings(f *FnVC) {
 			continue
 		}
 		for _, ob := range append([]*Obl{}, f.obls...) {
-			if ob.Cover || ob.Kind+" :: "+ob.Text != k.Obligation {
+			full := ob.Kind + " :: " + ob.Text
+			if ob.Cover || !(full == k.Obligation || (strings.HasSuffix(k.Obligation, "]") && strings.HasPrefix(full, k.Obligation))) {
 				continue
 			}
 			ob.Known = k
